@@ -9,5 +9,5 @@ CONSTANTS
   PreOps <- PreTamper
   SibFields <- NoFields
   TamperMax = 3
-INVARIANTS TypeOK PRedactedIffMismatch PRedactedForm PIntact PIdSigIff PSigsTogether Emit
+INVARIANTS TypeOK PRedactedIffMismatch PRedactedNoop PRedactedForm PIntact PIdSigIff PSigsTogether Emit
 CHECK_DEADLOCK FALSE
